@@ -287,8 +287,12 @@ def _as_base_exponent(f):
         if isinstance(exponent, ScalarValue) and not isinstance(exponent._value, complex):
             pair = _as_base_exponent(base)
             if pair is not None:
-                base, inner = pair
-                return base, inner * exponent._value
+                inner_base, inner = pair
+                # (x**a)**b == x**(a*b) holds for integer b (or a == 1) only:
+                # e.g. (x**2)**0.5 is |x|, not x.
+                if inner == 1 or float(exponent._value).is_integer():
+                    return inner_base, inner * exponent._value
+                return f, 1
         return None
     elif isinstance(f, Division):
         numerator, denominator = f.ufl_operands
